@@ -77,6 +77,15 @@ CLAIMED["C06"] = ("server", "5/C06, 4.2, 4.3",
     "TLC explores every interleaving of stop commands (handle and signal kinds, repeated), server command-loop steps, accept-thread exit, worker replies, ticks and connection completions (0..3 per worker, 1..2 workers) and checks graceful-waits, no-dispatch-after-completion, signal mapping and, under fairness, that every stop future and the Server future resolve; the worker's reply value/time and shutdown drain are checked on the real worker future for every model path in virtual time; real-thread runs (graceful/forced, timeout, second stop, dropped future, paused, SIGTERM/SIGINT/SIGQUIT) are judged by TLC on recorded events.",
     SRV_NOTE + " End-to-end runs use real time with generous bounds (forced stop must complete within 1.5 s; rejections are re-run before being believed).")
 
+RT_TECH = 'TLA+ design model (spec/rt/ActixRt.tla + RtProps.tla) checked exhaustively with TLC incl. liveness and NEG variants; randomized real-thread driver (harness/rt) records call-interval histories through the public API; TLC evaluates the same property predicates on every prefix of every recorded history (predicate-mode trace validation, spec/rt/ActixRtTrace.tla)'
+RT_NOTE = "Trusts TLC, the global-sequence-number trace mutex of the driver, 10 s watchdogs; real-thread interleavings are sampled (narrow races are hit with probability < 1 per run); bounds <= 3 arbiters, <= 4 calls, <= 2 stops in the model."
+CLAIMED["C09"] = ("rt", "5/C09, 4.6", RT_TECH,
+    "All behaviours of the actix-rt stop protocol model within <= 3 arbiters, <= 4 client calls, <= 2 stops, codes {0,7} satisfy C09 (safety exhaustive, liveness under weak fairness on the smallest config, 9 NEG variants rejected); the same TLA+ predicates hold on every recorded real-thread run (200 quick / 5000 thorough scenarios covering the quantifier's shape space: 0..3 arbiters x {early, dropped, running, busy}, stop from system/arbiter/foreign thread, codes 0/non-zero, one or two stops); not a proof for arbitrary sizes, real-thread interleavings are sampled.",
+    RT_NOTE)
+CLAIMED["C10"] = ("rt", "5/C10, 4.6", RT_TECH,
+    "All behaviours of the arbiter command protocol model within <= 3 arbiters, <= 4 calls (spawn/spawn_fn/stop from up to 3 threads) satisfy C10 (7 NEG variants rejected); the same TLA+ predicates (start order respects send order, at most once, own thread and identities, nothing after stop, spawn false when gone, join after loop end, block_on output) hold on every recorded real-thread run (200 quick / 5000 thorough) with tasks that complete, pend, panic or block.",
+    RT_NOTE)
+
 NOT_YET = "check not built yet in this round; the specification for it is planned in DESIGN.md section 5"
 
 
